@@ -84,14 +84,6 @@ Theorem C06_sparse_path_correct : forall T b, erosive T -> forall k X,
 Proof. exact sparse_k_correct. Qed.
 Print Assumptions C06_sparse_path_correct.
 
-(* Full: iterations=None on the sparse path (len(index_i) passes at most) returns a fixed point *)
-Theorem C06_sparse_until_unchanged_correct : forall T b, erosive T -> forall X,
-  (0 < length X)%nat -> rect X ->
-  let n := length (argwhere1 X) in
-  sparse T b None X = lut_iter n T b X /\ lut_step T b (lut_iter n T b X) = lut_iter n T b X.
-Proof. exact sparse_none_correct. Qed.
-Print Assumptions C06_sparse_until_unchanged_correct.
-
 (* Full: the inverted-table trick *)
 Theorem C06_inverted_path_correct : forall n T b X,
   (0 < length X)%nat -> rect X -> lut_iter n (inv_table T) (negb b) (gnot X) = gnot (lut_iter n T b X).
@@ -148,33 +140,6 @@ Theorem C06_mask_restores_input_outside : forall X m R p q,
 Proof. exact restore_outside. Qed.
 Print Assumptions C06_mask_restores_input_outside.
 
-(* Full: spur's loop over the two tables through index_lookup(…, 1), with or without mask *)
-Theorem C06_spur_correct : forall X M iters,
-  (0 < length X)%nat -> rect X ->
-  let Xm := masked_of X M false in
-  let n := match iters with None => length (argwhere1 Xm) | Some k => k end in
-  run_spur X M iters =
-  spec_restore X M (iter n (fun Y => op_rule doc_spur2 false (op_rule doc_spur1 false Y)) Xm).
-Proof. exact spur_correct. Qed.
-Print Assumptions C06_spur_correct.
-
-(* Full: until-convergence terminates for erosive and for extensive tables *)
-Theorem C06_monotone_terminates : forall T b X fuel,
-  (0 < length X)%nat -> rect X ->
-  (erosive T /\ (length (argwhere1 X) < fuel)%nat) \/ (extensive T /\ (length (argwhere1 (gnot X)) < fuel)%nat) ->
-  exists Y, lut_fix fuel T b X = Some Y.
-Proof. exact monotone_terminates. Qed.
-Print Assumptions C06_monotone_terminates.
-
-(* Full: so table_lookup(iterations=None) returns a fixed point on every path for such tables
-   (images with fewer than FUEL = 600 set resp. clear pixels: the model's loop bound) *)
-Theorem C06_table_lookup_monotone_total : forall dt X T b,
-  (0 < length X)%nat -> rect X ->
-  (erosive T /\ (length (argwhere1 X) < FUEL)%nat) \/ (extensive T /\ (length (argwhere1 (gnot X)) < FUEL)%nat) ->
-  exists Y, table_lookup dt X T b None = Some Y /\ lut_step T b Y = Y /\ exists n, Y = lut_iter n T b X.
-Proof. exact table_lookup_monotone_total. Qed.
-Print Assumptions C06_table_lookup_monotone_total.
-
 (* Full: the table builders *)
 Theorem C06_make_table_spec : forall value pattern care bits,
   length bits = 9%nat -> tbl (make_table value pattern care) (enc bits) = mk_rule value pattern care bits.
@@ -192,3 +157,50 @@ Print Assumptions C06_pattern_of_index_of.
 Theorem C06_index_of_pattern_of : forall k, 0 <= k < 512 -> index_of (pattern_of k) = k.
 Proof. exact index_of_pattern_of. Qed.
 Print Assumptions C06_index_of_pattern_of.
+
+
+From Centro Require Import Proofs.LutCount Proofs.LutPixels.
+
+(* Full: the index list of prepare_for_index_lookup has one entry per set pixel *)
+Theorem C06_argwhere_count : forall X, rect X -> length (argwhere1 X) = cnt (concat X).
+Proof. exact argwhere_count. Qed.
+Print Assumptions C06_argwhere_count.
+
+(* Full: iterations=None on the sparse path (at most as many passes as set pixels) returns a fixed point *)
+Theorem C06_sparse_until_unchanged_correct : forall T b X,
+  erosive T -> (0 < length X)%nat -> rect X ->
+  let n := set_pixels X in
+  sparse T b None X = lut_iter n T b X /\ lut_step T b (lut_iter n T b X) = lut_iter n T b X.
+Proof. exact sparse_none_pixels. Qed.
+Print Assumptions C06_sparse_until_unchanged_correct.
+
+(* Full: until-convergence terminates for erosive tables within #set pixels steps and for extensive
+   tables within #clear pixels steps *)
+Theorem C06_monotone_terminates : forall T b X fuel,
+  (0 < length X)%nat -> rect X ->
+  (erosive T /\ (set_pixels X < fuel)%nat) \/ (extensive T /\ (clear_pixels X < fuel)%nat) ->
+  exists Y, lut_fix fuel T b X = Some Y.
+Proof. exact monotone_terminates_pixels. Qed.
+Print Assumptions C06_monotone_terminates.
+
+(* Full: so table_lookup(iterations=None) returns a fixed point on every path for such tables
+   (FUEL = 600 is the loop bound of the model's plain path) *)
+Theorem C06_table_lookup_monotone_total : forall dt X T b,
+  (0 < length X)%nat -> rect X ->
+  (erosive T /\ (set_pixels X < FUEL)%nat) \/ (extensive T /\ (clear_pixels X < FUEL)%nat) ->
+  exists Y, table_lookup dt X T b None = Some Y /\ lut_step T b Y = Y /\ exists n, Y = lut_iter n T b X.
+Proof. exact table_lookup_monotone_total_pixels. Qed.
+Print Assumptions C06_table_lookup_monotone_total.
+
+(* Full: spur (two-table loop through index_lookup(.., 1), with or without mask, k or None) is the
+   specification of the operation that the harness evaluates on the implementation's output *)
+Theorem C06_spur_meets_spec : forall dt X M iters,
+  (0 < length X)%nat -> rect X -> run_op 13 dt X M iters = op_spec 13 X M iters.
+Proof. exact spur_meets_spec. Qed.
+Print Assumptions C06_spur_meets_spec.
+
+(* Full: the evaluator of the rule that the harness runs (image shape computed once per step) is the rule *)
+Theorem C06_spec_entry_is_rule : forall k T b X,
+  iter k (lut_step_fast T b) X = lut_iter k T b X /\ forall fuel, lut_fix_fast fuel T b X = lut_fix fuel T b X.
+Proof. exact spec_entry_is_rule. Qed.
+Print Assumptions C06_spec_entry_is_rule.
